@@ -59,6 +59,7 @@ def run(ctx):
             plan_errors.append({"expr": exprcases.show(c["e"], header), "error": r["plan_error"][:300]})
             continue
         report_violation(ctx, {"case": c, "header": header, "expr": exprcases.show(c["e"], header), "physical": r.get("physical"),
+                               "string_encoding": r.get("string_encoding", "utf8"),
                                "fails": r["fails"],
                                "oracle": "per-row engine result differs from the TLA+ reference Expr.Eval (or the engine raised where no row in scope errs)"},
                          key=finding_key(c, r))
@@ -98,6 +99,8 @@ def run(ctx):
         "engine_succeeded_where_reference_errs": (summary or {}).get("engine_succeeded_where_reference_errs"),
         "strategies_exercised": strategies, "node_coverage": dict(sorted(ops.items())),
         "unplannable_expressions": plan_errors[:5], "unplannable_count": len(plan_errors),
+        "string_encoding_variant_cases": (summary or {}).get("string_encoding_variant_cases"),
+        "string_encoding_variant_plan_errors": (summary or {}).get("string_encoding_variant_plan_errors"),
     }, assumptions=[
         "scope: table A = c1,c2 BIGINT {NULL,-1,0,1,2} x c3 VARCHAR {NULL,a,ab,b} x c4 BOOLEAN (300 rows, exhaustive); table B = c1,c2 TINYINT "
         "{NULL,-128,-1,0,1,127} x c3 SMALLINT {NULL,-32768,1,32767} x c4 INT {NULL,1,300} (432 rows, exhaustive)",
